@@ -326,17 +326,26 @@ def main(argv):
                     (["useLong"], ["useFail"]), (["useOk", "tick", "useLong"], ["useOk"]),
                     # close() of the pooled client (ObjectPool.clear) by one caller while another one's call is in flight
                     (["useOk"], ["clear"]), (["useLong"], ["clear"]), (["useOk", "useOk"], ["clear"]), (["useOk"], ["clear", "useOk"])]
+    #      Every interleaved trace, recorded WITH the clock (every advance `tick d`, every value the pool's clock returned `clock v`, every
+    #      write of `_last_used` `stamp o v`), must be a run of the timed micro-step model `PoolConcT` (Pymc/Model/PoolConcTimed.lean,
+    #      driver `pool.validate.timed`), in which the stamps are written inside the lock hold and the idle test is decided by the model's
+    #      own clock and stamps: the model of C09_conc_expired_only_if_idle_long / C09_conc_fresh_idle_is_reused.
+    tlines, tcases = [], []
     for progs in overlap_sets:
         programs = [list(p_) for p_ in progs]
+        mprogs_ = [["useOk" if o_ == "useLong" else o_ for o_ in p_ if o_ != "tick"] for p_ in programs]
         for mx in (1, 2, 3):
             s0, _, _ = c08_mod.run_schedule(pmod, mx, programs, (), idle=True)
             npoints = min(s0.pos, 140)
             for plan in c08_mod.plans(range(npoints), 2, 2 if (ctx.thorough and npoints <= 70) else 1):
-                sched_, viol_, _ = c08_mod.run_schedule(pmod, mx, programs, plan, idle=True)
+                sched_, viol_, _ = c08_mod.run_schedule(pmod, mx, programs, plan, idle=True, timed=True)
                 ctx.case(("overlap", tuple(map(tuple, programs)), mx, plan))
                 ctx.count("overlapping-callers-schedules")
                 case = {"programs": programs, "max_pool_size": mx, "pool_idle_timeout": 5, "useLong_lasts": 10, "tick": 10, "plan": [list(x_) for x_ in plan],
                         "trace_tail": [f"{t_}:{e_}" for t_, e_ in sched_.trace][-30:]}
+                if not any("deadlock" in v_ or "internal error" in v_ for v_ in viol_):
+                    tlines.append(f"pool.validate.timed max={mx} idle=5 progs={';'.join(','.join(p_) for p_ in mprogs_)} trace={c08_mod.trace_tok(sched_.trace)}")
+                    tcases.append(case)
                 for v_ in sched_.early_expiry:
                     ctx.violation("overlapping callers: a healthy connection was closed and reopened instead of reused: " + v_, case, tags=["overlap", "early-expiry"])
                 for v_ in viol_:
@@ -345,6 +354,13 @@ def main(argv):
                     elif v_.endswith("was closed 0 times"):
                         ctx.violation("overlapping callers: a healthy connection was dropped by the pool without being closed - it can never be reused, the next call opens another: "
                                       + v_, case, tags=["overlap", "dropped-open"])
+    if ctx.lean.build_ok and tlines:
+        ctx.count("overlapping-callers-traces-validated-by-timed-model", len(tlines))
+        for case, o in zip(tcases, ctx.driver.batch(tlines)):
+            if not o.startswith("ok valid"):
+                ctx.disagreement("overlapping callers: an interleaved trace of the real pool (with clock values and _last_used stamps) is not a run of the "
+                                 "timed Lean micro-step model (stamps inside the lock hold, idle test decided by clock and stamps)",
+                                 dict(case, verdict=o[:300]), theorem="C09_conc_expired_only_if_idle_long")
     # the same with the REAL PooledClient methods and REAL Client objects in the pool (identity of the pooled objects matters: the pool finds them
     # with deque.remove): a quit() or a failing call of one caller while another caller's call is in flight
     import pymemcache.client.base as base_mod_
@@ -366,5 +382,7 @@ def main(argv):
                 for v_ in viol_:
                     if "is closed" in v_ or "still checked out" in v_ or "deadlock" in v_ or "internal error" in v_ or "held by two" in v_:
                         ctx.violation("overlapping callers: " + v_, case, tags=["overlap"])
-    ctx.assumptions = ["time is the patched pool clock (integer ticks); one call happens at one instant", "a connection = one successfully connected socket"]
+    ctx.assumptions = ["time is the patched pool clock (integer ticks); one call happens at one instant", "a connection = one successfully connected socket",
+                       "overlapping callers: interleaving granularity = source lines of pool.py under the deterministic scheduler; threading.Lock is a correct mutex; "
+                       "the timed micro-step model (PoolConcT) is tied to the code by validating every recorded trace (events, clock values, stamps) as one of its runs"]
     ctx.finish()
